@@ -148,6 +148,19 @@ def check_C14(run):
     return run.finish(rule="factor pairs from ?gstrf on exact-domain matrices; sp_?trsv over every (uplo, trans, diag) combination and the documented lower-case spellings; ?gstrs nrhs 1..4 with padded B; sp_?gemv / sp_?gemm on rectangular matrices with alpha/beta in {0,1,-1,2,1/2}, strides, NaN-poisoned y for beta = 0")
 
 
+def check_C15(run):
+    mc_factor(run, ["q"], ["p"])
+    g = Gen(run.seed * 1000 + 15)
+    types = {"d": 1.0, "z": 0.3, "s": 0.2, "c": 0.15} if run.tier == "quick" else FULL_TYPES
+    scen = F.fam_ilu(g, "C15", sizes(run, 1500, 12000), types)
+    run.conform("ilu", scen, ["C15.", "C03."])
+    # "never breaks down": the same runs under ASan + UBSan (observer)
+    g2 = Gen(run.seed * 1000 + 151)
+    scen2 = F.fam_ilu(g2, "C15", sizes(run, 800, 8000), {"d": 1.0, "z": 0.3, "s": 0.2, "c": 0.15})
+    run.conform("ilu_asan", scen2, ["C15.", "C03.", "C19.sanitizer"], variant="v2", harness_env=SAN_ENV, tv_env={"MODE": "light"})
+    return run.finish(rule="structurally nonsingular matrices incl. zero diagonals and singular leading blocks through ?gsisx over every drop-rule combination, tolerance, fill factor, norm, MILU variant, row permutation, Trans, ordering, tuning; discrete clauses on every run, exact solve clause where nothing is scaled, complete-LU clauses when nothing is dropped or replaced; the same under ASan+UBSan")
+
+
 def check_C18(run):
     objs, st, out = vlib.tlc_generate("C18_screen", "SluScreen.tla", "SluScreen.cfg")
     if "No error has been found" not in out:
